@@ -516,8 +516,21 @@ ImplNM(abs, ent) ==
 ImplRangeKept(abs, ent) ==
   abs.ifr.k = "none" \/ (abs.ifr.k = "tag" /\ StrongEqT(abs.ifr, ent.etag))
 
-\* range::parse on a clean set: specs with last < first are skipped
-ImplResolve(L, r) == Resolve(L, r.specs)
+\* range::parse on a clean set, with the code's own arithmetic (range.rs:64-88): half-open
+\* ranges in u64, `last + 1` saturating at u64::MAX, then clamped to len; suffix clamped to len.
+\* (Kept separate from ResolveSpec, which is the RFC reading from the property text: the model
+\* checker compares the two on every enumerated case.)
+SatSucc(x) == IF x = MaxU64 \/ ~IsU64(x) THEN MaxU64 ELSE Succ(x)
+ImplResolveSpec(L, s) ==
+  CASE s.k = "s" -> LET last == Min(s.n, L) IN
+                    IF IsZero(last) THEN <<>> ELSE <<[a |-> Sub(L, last), b |-> Pred(L)]>>
+    [] s.k = "f" -> IF Le(L, s.a) THEN <<>> ELSE <<[a |-> s.a, b |-> Pred(L)]>>
+    [] s.k = "fl" -> LET end == Min(SatSucc(s.b), L) IN
+                     IF Le(end, s.a) THEN <<>> ELSE <<[a |-> s.a, b |-> Pred(end)]>>
+RECURSIVE ImplResolveFrom(_, _, _)
+ImplResolveFrom(L, specs, i) ==
+  IF i > Len(specs) THEN <<>> ELSE ImplResolveSpec(L, specs[i]) \o ImplResolveFrom(L, specs, i + 1)
+ImplResolve(L, r) == ImplResolveFrom(L, r.specs, 1)
 
 ImplEstimateOK(L, R) ==
   LET s == SumSizes(R, 1, PartEstimate) IN ~s.of /\ Lt(s.v, L)
